@@ -271,6 +271,10 @@ func (w *worker) runSession() {
 		w.modeColdFirst()
 	case "chain":
 		w.modeChain()
+	case "hugefirst":
+		w.modeHugeFirst()
+	case "coldburst":
+		w.modeColdBurst()
 	case "rand":
 		for i := 0; i < s.Runs && !w.stop; i++ {
 			seed := simrt.Mix(s.Seed, uint64(s.Worker), uint64(i))
@@ -543,6 +547,7 @@ func (w *worker) modeSeqAll() {
 		w.sum.Runs++
 		w.sum.Steps += res.Steps
 		w.sum.Calls += int64(len(calls))
+		w.sum.Spawned += int64(res.Spawned)
 		if res.RaceDelta > 0 {
 			// a single caller, nothing scheduled: only the library's own goroutines
 			// can race here (or the harness is visible to the detector; the driver
@@ -720,7 +725,18 @@ func (w *worker) modeRepeat() {
 func LongList(c *common.Corpus) []int32 {
 	var out []int32
 	for i, f := range c.Flags {
-		if f&common.FLong != 0 {
+		if f&common.FLong != 0 && f&common.FHuge == 0 {
+			out = append(out, int32(i))
+		}
+	}
+	return out
+}
+
+// HugeList lists the huge inputs.
+func HugeList(c *common.Corpus) []int32 {
+	var out []int32
+	for i, f := range c.Flags {
+		if f&common.FHuge != 0 {
 			out = append(out, int32(i))
 		}
 	}
@@ -737,8 +753,12 @@ func (w *worker) modeLongPairs() {
 	if L == 0 {
 		return
 	}
-	for k := w.ses.From; k < w.ses.To && !w.stop; k++ {
-		api := uint8(k & 1)
+	stride := 1
+	if w.ses.Runs > 1 {
+		stride = w.ses.Runs // quick tier: every Runs-th ordered pair (offset by the seed)
+	}
+	for k := w.ses.From + int(w.ses.Seed%uint64(stride)); k < w.ses.To && !w.stop; k += stride {
+		api := uint8((k / stride) & 1)
 		q := k >> 1
 		a, b := ls[(q/L)%L], ls[q%L]
 		calls := []simrt.Call{{API: api, Idx: a, Input: w.c.In[a]}, {API: api, Idx: b, Input: w.c.In[b]}}
@@ -818,14 +838,8 @@ func (w *worker) modeSoak() {
 	if w.ses.Worker < 8 {
 		// candidates: positive probes and literals of the hot API, shared out
 		// between the four burst workers of that API
-		var cand []int32
-		for i, f := range w.c.Flags {
-			if f&(common.FProbe|common.FLiteral) != 0 && len(w.c.In[i]) <= 64 {
-				if ref := w.c.Ref[hotAPI][i]; len(ref) > 0 && ref[0] == 'T' {
-					cand = append(cand, int32(i))
-				}
-			}
-		}
+		cand := BurstCandidates(w.c, hotAPI)
+		after := BurstAfterList(w.c, cand)
 		var mine []int32
 		for k, p := range cand {
 			if k%4 == (w.ses.Worker/2)%4 {
@@ -836,11 +850,19 @@ func (w *worker) modeSoak() {
 			if w.stop {
 				break
 			}
-			calls := make([]simrt.Call, 0, 1500)
+			calls := make([]simrt.Call, 0, 1500+len(after))
 			for k := 0; k < 1500; k++ {
 				calls = append(calls, simrt.Call{API: hotAPI, Idx: p, Input: w.c.In[p]})
 			}
-			spec := &simrt.RunSpec{Seed: uint64(p), Tasks: [][]simrt.Call{calls}, Policy: simrt.Policy{Kind: "seq", PoolMode: "lifo"}, Est: 1500*(w.c.Steps[hotAPI][p]+1) + 64}
+			est := 1500 * (w.c.Steps[hotAPI][p] + 1)
+			// ... then every candidate and every short splice once: whatever the burst
+			// taught the library (prevailing context, frozen verdicts, tripped breakers)
+			// shows on its siblings
+			for _, q := range after {
+				calls = append(calls, simrt.Call{API: hotAPI, Idx: q, Input: w.c.In[q]})
+				est += w.c.Steps[hotAPI][q] + 1
+			}
+			spec := &simrt.RunSpec{Seed: uint64(p), Tasks: [][]simrt.Call{calls}, Policy: simrt.Policy{Kind: "seq", PoolMode: "lifo"}, Est: est + 64}
 			w.execRun(spec, nil, false)
 		}
 	}
@@ -966,4 +988,91 @@ func (w *worker) modeChain() {
 		spec := &simrt.RunSpec{Seed: simrt.Mix(w.ses.Seed, uint64(w.ses.Worker), uint64(a)), Tasks: [][]simrt.Call{calls}, Policy: pol, Est: est + 64}
 		w.execRun(spec, nil, a == 0)
 	}
+}
+
+// modeHugeFirst: huge input From (API Runs&1) is asked once by one task; then
+// three runs of two tasks asking the same sixteen probes follow. A buffer that
+// grew, was trimmed, double-released or pinned by the huge call shows as a
+// race or a wrong answer on ordinary calls.
+func (w *worker) modeHugeFirst() {
+	hs := HugeList(w.c)
+	if w.ses.From >= len(hs) {
+		return
+	}
+	_, probes := HistLists(w.c)
+	h := hs[w.ses.From]
+	api := uint8(w.ses.Runs & 1)
+	spec := &simrt.RunSpec{Seed: 1, Tasks: [][]simrt.Call{{{API: api, Idx: h, Input: w.c.In[h]}}}, Policy: simrt.Policy{Kind: "seq", PoolMode: "lifo"}, Est: w.c.Steps[api][h] + 64}
+	w.execRun(spec, nil, true)
+	for r := 0; r < 3 && !w.stop; r++ {
+		var calls []simrt.Call
+		var est int64
+		for k := 0; k < 16 && k < len(probes); k++ {
+			p := probes[(r*16+k*5)%len(probes)]
+			calls = append(calls, simrt.Call{API: api, Idx: p, Input: w.c.In[p]})
+			est += w.c.Steps[api][p] + 1
+		}
+		c2 := append([]simrt.Call(nil), calls...)
+		pol := simrt.Policy{Kind: []string{"seq", "walk", "rr"}[r], P: 0.05, Quantum: 3, PoolMode: "lifo", GCP: 0.01}
+		sp := &simrt.RunSpec{Seed: uint64(r + 2), Tasks: [][]simrt.Call{calls, c2}, Policy: pol, Est: 2*est + 64}
+		w.execRun(sp, nil, false)
+	}
+}
+
+// BurstCandidates: positive probes and literals (<= 64 bytes) of an API.
+func BurstCandidates(c *common.Corpus, api uint8) []int32 {
+	var cand []int32
+	for i, f := range c.Flags {
+		if f&(common.FProbe|common.FLiteral) != 0 && len(c.In[i]) <= 64 {
+			if ref := c.Ref[api][i]; len(ref) > 0 && ref[0] == 'T' {
+				cand = append(cand, int32(i))
+			}
+		}
+	}
+	return cand
+}
+
+// BurstAfterList: what is asked once after a burst: short splices first (they
+// are positive in several parsing contexts, so they show a changed preference
+// before ordinary traffic can undo it), then all candidates.
+func BurstAfterList(c *common.Corpus, cand []int32) []int32 {
+	var after []int32
+	for i, f := range c.Flags {
+		if f&common.FSplice != 0 && len(c.In[i]) <= 120 && len(after) < 500 {
+			after = append(after, int32(i))
+		}
+	}
+	return append(after, cand...)
+}
+
+// modeColdBurst: a fresh process is taught ONE thing intensely - candidate
+// From of API Runs&1 asked 1500 times in a row on a fast clock - and then
+// probed with every splice and every candidate once. Adaptive heuristics,
+// prevailing-context preferences, first-seen orders, frozen verdicts and
+// token buckets all react to exactly this.
+func (w *worker) modeColdBurst() {
+	api := uint8(w.ses.Runs & 1)
+	cand := BurstCandidates(w.c, api)
+	if len(cand) == 0 {
+		return
+	}
+	p := cand[w.ses.From%len(cand)]
+	after := BurstAfterList(w.c, cand)
+	calls := make([]simrt.Call, 0, 1500+len(after))
+	est := 1500 * (w.c.Steps[api][p] + 1)
+	for k := 0; k < 1500; k++ {
+		calls = append(calls, simrt.Call{API: api, Idx: p, Input: w.c.In[p]})
+	}
+	for _, q := range after {
+		// one probe, then the lesson is refreshed (a few ordinary answers must not
+		// be able to undo what the burst taught before the next probe is asked)
+		calls = append(calls, simrt.Call{API: api, Idx: q, Input: w.c.In[q]})
+		est += w.c.Steps[api][q] + 1
+		for k := 0; k < 48; k++ {
+			calls = append(calls, simrt.Call{API: api, Idx: p, Input: w.c.In[p]})
+		}
+		est += 48 * (w.c.Steps[api][p] + 1)
+	}
+	spec := &simrt.RunSpec{Seed: uint64(p), Tasks: [][]simrt.Call{calls}, Policy: simrt.Policy{Kind: "seq", PoolMode: "lifo"}, Est: est + 64}
+	w.execRun(spec, nil, true)
 }
